@@ -352,6 +352,12 @@ func (srv *server) registerClient(connect *packets.Connect, client *client) (ses
 	var sess *gmqtt.Session
 	var oldSession *gmqtt.Session
 	now := time.Now()
+	// The write loop may add a Topic Alias property (3 bytes) that Message.TotalBytes does not
+	// count: leave room for it so that no packet exceeds the client's Maximum Packet Size.
+	readBytesLimit := client.opts.ClientMaxPacketSize
+	if client.opts.ClientTopicAliasMax > 0 && readBytesLimit > 3 {
+		readBytesLimit -= 3
+	}
 	oldSession, err = srv.lockDuplicatedID(client)
 	if err != nil {
 		return
@@ -449,7 +455,7 @@ func (srv *server) registerClient(connect *packets.Connect, client *client) (ses
 				err = qs.Init(&queue.InitOptions{
 					CleanStart:     false,
 					Version:        client.version,
-					ReadBytesLimit: client.opts.ClientMaxPacketSize,
+					ReadBytesLimit: readBytesLimit,
 					Notifier:       client.queueNotifier,
 				})
 				if err != nil {
@@ -488,7 +494,7 @@ func (srv *server) registerClient(connect *packets.Connect, client *client) (ses
 		err = qs.Init(&queue.InitOptions{
 			CleanStart:     true,
 			Version:        client.version,
-			ReadBytesLimit: client.opts.ClientMaxPacketSize,
+			ReadBytesLimit: readBytesLimit,
 			Notifier:       client.queueNotifier,
 		})
 		if err != nil {
